@@ -14,24 +14,44 @@ import random
 import record_lib as rl
 import vlib
 
-KS = [0, 1, 15, 16, 17, 1000, 1300, 16384, 16385, 20000]
+KS = [0, 1, 8, 15, 16, 17, 64, 1000, 1300, 16384, 16385, 20000]
 
 
 def complete(ops):
-    """every query must be followed by a write of the client (the record the keystream is for)"""
-    ops = list(ops)
+    """Every query must be judged: a query whose position ends without a Write (the client sends a KeyUpdate, or may answer one
+    while reading) is repeated at once with the same length (pure query: same position, same bytes); the last position
+    gets a write of the client (the record the keystream is for)."""
+    out = []
+    for i, o in enumerate(ops):
+        out.append(o)
+        nxt = ops[i + 1] if i + 1 < len(ops) else None
+        if o["op"] == "K" and nxt is not None and nxt["x"] == "c" and nxt["op"] in ("KU", "R"):
+            out.append(dict(o))
+    ops = out
     last_k = max([i for i, o in enumerate(ops) if o["op"] == "K"], default=-1)
     if last_k >= 0 and not any(o["op"] == "W" and o["x"] == "c" and o["n"] > 0 for o in ops[last_k + 1:]):
         ops.append({"op": "W", "x": "c", "n": 16385})
     return ops
 
 
+def shape3(ops):
+    """three consecutive queries with lengths a > b < c (what a reused scratch buffer gets wrong)"""
+    ks = [o["n"] if o["op"] == "K" else None for o in ops]
+    return any(None not in ks[i:i + 3] and ks[i] > ks[i + 1] < ks[i + 2] for i in range(len(ks) - 2))
+
+
 def run(ctx):
     rng = random.Random(ctx.seed * 7919 + 28)
     t, grid = rl.tables(ctx)
     res, scns = rl.mc(ctx, "Record_MC_ks", classes=["tls12", "tls13"], sizes=[1, 1000, 16385], reads=[32768],
-                      kssizes=KS, kssides=["c"], maxops=3 if ctx.quick else 4, maxw=2, maxku=1, maxks=2, paths=True,
+                      kssizes=KS, kssides=["c"], maxops=3, maxw=2, maxku=1, maxks=3, paths=True,
                       dyns=[False, True], workers=8)
+    if not ctx.quick:
+        # four operations (three queries with a write / key update anywhere in between) over the shorter lengths
+        _, more = rl.mc(ctx, "Record_MC_ks4", classes=["tls12", "tls13"], sizes=[1, 16385], reads=[32768],
+                        kssizes=[0, 1, 8, 17, 64, 1300], kssides=["c"], maxops=4, maxw=2, maxku=1, maxks=3, paths=True,
+                        dyns=[False, True], workers=8, timeout=1700)
+        scns = scns + more
     by_class = {"tls12": [], "tls13": []}
     for s in scns:
         if any(o["op"] == "K" for o in s["ops"]):
@@ -58,6 +78,9 @@ def run(ctx):
             for d in (False, True):
                 cand = [sc for sc in pool if sc[1] == d and any(o["op"] == "K" and o["n"] == k for o in sc[0])]
                 picks += rng.sample(cand, min(max(1, per // (4 * len(KS))), len(cand)))
+        # sequences of three queries at one position, in particular long, short, longer-than-short
+        tri = [sc for sc in pool if shape3(sc[0])]
+        picks += rng.sample(tri, min(max(4, per // 3), len(tri)))
         picks += rng.sample(pool, min(max(0, per - len(picks)), len(pool)))
         for ops, d in picks:
             n += 1
@@ -103,23 +126,26 @@ def run(ctx):
         ctx.finding(sig, "version 0x%04x suite 0x%04x: %s" % (j["vers"], j["suite"], why),
                     dict(rl.first_bad_event(out["by"][sc], why), scenario=j["ops"], dyn=j["dyn"]))
     # ---- vacuity: the XOR law must have been evaluated exactly where a query is followed by a record of the client
-    expect, lens = 0, {}
+    expect, lens, dips = 0, {}, 0
     for sc, evs in out["by"].items():
         if sc in out["rej"]:
             continue
-        pend = None
+        pend = []
         for e in evs:
             if e["ev"] == "Keystream" and e["err"] == "":
-                pend = e["n"]
+                pend.append(e["n"])
+                if len(pend) >= 3 and pend[-3] > pend[-2] < pend[-1]:
+                    dips += 1
             elif e["wrote"]["c"]:
-                if pend is not None and e["ev"] == "Write":
+                if pend and e["ev"] == "Write":
                     expect += 1
-                    lens[pend] = lens.get(pend, 0) + 1
-                pend = None
+                    for k in pend:
+                        lens[k] = lens.get(k, 0) + 1
+                pend = []
     # (with reproduced rejections the verdict stands on those; the counts below only cover accepted scenarios)
     if not out["rej"]:
         rl.need(out["stats"], ["Init.hs", "Keystream", "Keystream.err", "KsLaw", "Nonce", "KeyUpdate", "Read.kuresp", "Read.data", "Write.multi",
-                               "Ramp.grow", "Ramp.off"], "C28")
+                               "Ramp.grow", "Ramp.off", "Keystream.again"], "C28")
         # the query must have been followed by a multi-record Write while the ramp was still growing (record boundaries
         # after the call are then a function of packetsSent), and by one with record sizing off
         after = {False: 0, True: 0}
@@ -138,11 +164,13 @@ def run(ctx):
             raise vlib.Machinery("C28: XOR law evaluated %d times, %d query->record pairs were recorded" % (out["stats"].get("KsLaw", 0), expect))
         if set(lens) != set(KS):
             raise vlib.Machinery("C28: lengths whose keystream was compared with a record: %s" % sorted(lens))
+        if dips < len(aead):
+            raise vlib.Machinery("C28: only %d query sequences long, short, longer at one position were replayed" % dips)
     cov = {"evaluations": out["stats"].get("KsLaw", 0), "distinct_nontrivial": len({(j["vers"], j["suite"], str(j["ops"])) for j in jobs}),
            "rule": "every AEAD suite at TLS 1.2 (incl. legacy ChaCha20) and 1.3 x %d TLC-enumerated operation sequences containing the query "
                    "(stratified over the 7 lengths); evaluations = XOR-law evaluations on recorded bytes, distinct = (suite, sequence) pairs" % per,
            "aead_cells": len(aead), "non_aead_cells": len(other), "mc_paths_with_query": sum(len(v) for v in by_class.values()), "multi_record_writes_after_query_by_dyn": {str(k): v for k, v in after.items()} if not out["rej"] else {},
-           "law_evaluations_by_length": {str(k): v for k, v in sorted(lens.items())}, "events_judged": out["events"],
+           "long_short_longer_sequences": dips, "law_evaluations_by_length": {str(k): v for k, v in sorted(lens.items())}, "events_judged": out["events"],
            "matched_steps": out["stats"], "canaries_rejected": out["canaries"],
            "samples": [{"vers": j["vers"], "suite": j["suite"], "dyn": j["dyn"], "ops": j["ops"][:5]} for j in jobs[:3]],
            "exhaustive": False}
